@@ -141,8 +141,9 @@ Proof.
   intros [= <-]. unfold good, size_ok. cbn [maxsize overwrite size]. auto.
 Qed.
 
-(* ---------- one cbuf_write_from_fd(cb, fd, -1): nothing is ever dropped ---------- *)
-Lemma wfd_step c s : Inv c -> good c -> used c < CBUF_MAXSIZE -> script_ok s ->
+(* ---------- one cbuf_write_from_fd(cb, fd, -1): nothing is ever dropped ----------
+   (a buffer that is full at its maximum size only meets end of file or EAGAIN) *)
+Lemma wfd_step c s : Inv c -> good c -> used c < CBUF_MAXSIZE \/ stream_of s = [] -> script_ok s ->
   exists c' s' r, write_from_fd c s None = (c', s', r) /\ Inv c' /\ good c' /\ script_ok s' /\
     match r with
     | WOk n nd => 0 < n /\ exists dl, stream_of s = dl ++ stream_of s' /\ abs c' = abs c ++ dl /\
@@ -163,22 +164,23 @@ Proof.
   apply writer_prep_spec in Ep; auto. destruct Ep as (A1 & A2 & A3 & A4 & A5 & A6 & A7 & A8 & A9).
   rewrite Go in A9. cbn [eff_len] in A9. subst ol.
   (* the request fits and the new size is one of the expected ones *)
-  assert (Fit : used c + len0 <= size c1 /\ size_ok (size c1)).
+  assert (Fit : (used c < CBUF_MAXSIZE -> used c + len0 <= size c1) /\ size_ok (size c1)).
   { rewrite Ec1. unfold len0 in *. cbv zeta in *. clear Ec1 A8.
     destruct (size c - used c =? 0) eqn:E; [apply N.eqb_eq in E|apply N.eqb_neq in E].
     - assert (Eu : used c = size c) by lia.
-      assert (Hlt : size c < maxsize c) by (rewrite Gm; lia).
-      replace ((size c - used c <? N.min (size c) CBUF_CHUNK) && (size c <? maxsize c))%bool with true
-        by (symmetry; apply andb_true_iff; split; apply N.ltb_lt; lia).
-      rewrite grow_size. replace (size c =? maxsize c) with false by (symmetry; apply N.eqb_neq; lia).
-      rewrite E, Gm, Eu. unfold size_ok in *. unfold CBUF_CHUNK, CBUF_MAXSIZE in *.
-      destruct Gs as [Gs|[Gs|[Gs|[Gs1 Gs2]]]].
-      + rewrite Gs. vm_compute. split; [discriminate|auto].
-      + rewrite Gs. vm_compute. split; [discriminate|]. right; right; right. split; [reflexivity|reflexivity].
-      + lia.
-      + replace (N.min (size c) 1000) with 1000 by lia. rewrite N.sub_0_r.
-        assert (Em : (size c + 1 + 1000) mod 1000 = 0) by lia. rewrite Em.
-        lia.
+      destruct (size c <? maxsize c) eqn:Elt; [apply N.ltb_lt in Elt|apply N.ltb_ge in Elt].
+      + replace (size c - used c <? N.min (size c) CBUF_CHUNK) with true by (symmetry; apply N.ltb_lt; lia).
+        cbn [andb].
+        rewrite grow_size. replace (size c =? maxsize c) with false by (symmetry; apply N.eqb_neq; lia).
+        rewrite Gm in *. rewrite E, Eu. unfold size_ok in *. unfold CBUF_CHUNK, CBUF_MAXSIZE in *.
+        destruct Gs as [Gs|[Gs|[Gs|[Gs1 Gs2]]]].
+        * rewrite Gs. vm_compute. split; [discriminate|auto].
+        * rewrite Gs. vm_compute. split; [discriminate|]. right; right; right. split; [reflexivity|reflexivity].
+        * lia.
+        * replace (N.min (size c) 1000) with 1000 by lia. rewrite N.sub_0_r.
+          assert (Em : (size c + 1 + 1000) mod 1000 = 0) by lia. rewrite Em.
+          lia.
+      + rewrite andb_false_r. rewrite Gm in *. split; [lia|auto].
     - replace ((size c - used c <? size c - used c) && (size c <? maxsize c))%bool with false
         by (symmetry; apply andb_false_iff; left; apply N.ltb_ge; lia).
       split; [lia|auto]. }
@@ -197,7 +199,11 @@ Proof.
     destruct El0 as [(L1 & L2 & L3)|(L1 & L2)]; rewrite L1.
     + exists c1, s', WErr. csplit; auto.
     + exists c1, s', WEof. csplit; auto.
-  - subst d nfree. rewrite <- E3.
+  - assert (Hu' : used c < CBUF_MAXSIZE).
+    { destruct Hu as [Hu|Hu]; [exact Hu|]. rewrite Hu in E1. symmetry in E1. apply app_eq_nil in E1 as [-> _].
+      cbn [length] in E3. lia. }
+    specialize (Fit Hu').
+    subst d nfree. rewrite <- E3.
     exists (commit_write c1 (put_ring (data c1) (size c1 + 1) (i_in c1) dl) (N.of_nat (length dl)) (size c1 - used c1)), s',
       (WOk (N.of_nat (length dl)) (N.of_nat (length dl) - (size c1 - used c1))).
     csplit; auto.
